@@ -269,4 +269,11 @@ func C14(c *vf.Check) {
 	c.Cov["exhaustive"] = true
 	c.Cov["bounds"] = J{"K": ks, "M": ms}
 	c.Assumptions = append(c.Assumptions, "data races are decided by Go's race detector during the replay: TLA+ has no Go memory model", "each iterator has its own recorder; shared state would have to live in go-co's runtime or generated code")
+
+	// iterators held by ONE generator and created inside its steps: F_indep of MC_Src.tla
+	rule, bounds := c.Cov["rule"], c.Cov["bounds"]
+	runFam(c, famSpec{id: "C14", fam: "indep", name: "F_indep", sizeQ: "4", sizeT: "5", tapeQ: "1", tapeT: "2", callsQ: 6, callsT: 8,
+		keys: fullKeys, deleg: true, budget: 40, rule: "F_indep"})
+	c.Cov["rule"] = fmt.Sprint(rule) + "; plus F_indep: every generator up to MaxSize that holds a local iterator `it` (pulled by hand, also after exhaustion, or delegated to), delegates created by YieldFrom and a second iterator created in a later step: an exhausted iterator stays exhausted and a live one is not disturbed, whatever else is created meanwhile"
+	c.Cov["bounds"] = J{"MC_Sched": bounds, "F_indep": c.Cov["bounds"]}
 }
